@@ -119,6 +119,29 @@ func checkC24(c *Ctx, r *Report) {
 		})
 		r.Check(okMark && stored && pruned, r3, fl, "mark at the Fails threshold", nil, "len(retained) >= Fails, list pruned and stored", "a host is marked unhealthy without the retained-failure count having reached Fails, or the failure list is not pruned/stored")
 	}
+	r5 := r.Rule("R5", "E-OWN", "the per-host failure history (passiveFilter.failures) is written — updated or deleted from — only by Failed, where every write stores the pruned list; no other function drops failures that may still lie inside the window", 1)
+	nw := 0
+	for _, fn := range c.FuncsIn(pkgHC) {
+		if c.isFixture(fn) {
+			continue
+		}
+		instrsOf(fn, func(in ssa.Instruction) {
+			wr := isMapDeleteOn(in, tPF+".failures")
+			if mu, isMU := in.(*ssa.MapUpdate); isMU && isPureLoadOf(mu.Map, tPF+".failures") {
+				wr = true
+			}
+			if !wr {
+				return
+			}
+			nw++
+			owner := fn.Name() == "Failed" && recvTypeName(fn) == tPF
+			_, isDel := in.(*ssa.MapUpdate)
+			r.Check(owner && isDel, r5, fn, "write of the failure history", in, "in Failed, storing the pruned list", "the failure history of a host is modified outside Failed (or deleted wholesale): failures that are still inside FailTimeout are forgotten, so Fails failures within one window no longer mark the host unhealthy")
+		})
+	}
+	if nw == 0 {
+		r.Unresolved(r5, "no write of passiveFilter.failures found")
+	}
 	r4 := r.Rule("R4", "E-LOCK", "passiveFilter.unhealthy/failures under the embedded mutex", 2)
 	checkLockRows(c, r, r4, []string{pkgHC}, []LockRow{{Struct: tPF, Mutex: "Mutex", Fields: []string{"unhealthy", "failures"}, Ctors: []string{pkgHC + ".NewPassiveFilter"}}})
 }
